@@ -15,14 +15,18 @@ Local Open Scope list_scope.
 (* ---------- the function library ---------- *)
 
 Definition RES_CREATE_DELAY : Z := 11.
+Definition RES_PATCH_DELAY : Z := 13.
 
 Definition res_rid_of (kind plural fn n : string) : json :=
   JMap [("apiVersion", JStr "example.dev/v1"); ("kind", JStr kind); ("plural", JStr plural);
         ("name", JStr n); ("readonly", JBool false); ("namespace", JStr "ns1");
         ("resourceFunction", JStr fn)].
-(* res: Widget with an explicit plural; resl: Gadget whose plural is looked up (api.lookup_kind) *)
+(* res: Widget with an explicit plural; resl: Gadget whose plural is looked up (api.lookup_kind);
+   resd: Dwidget whose present object has drifted inside a list compared as a set *)
 Definition res_rid (f n : string) : json :=
-  if String.eqb f "res" then res_rid_of "Widget" "widgets" "res" n else res_rid_of "Gadget" "gadgets" "resl" n.
+  if String.eqb f "res" then res_rid_of "Widget" "widgets" "res" n
+  else if String.eqb f "resd" then res_rid_of "Dwidget" "dwidgets" "resd" n
+  else res_rid_of "Gadget" "gadgets" "resl" n.
 
 Definition plain (o : sout) : fres := {| f_out := o; f_rid := None; f_calls := [] |}.
 
@@ -45,12 +49,15 @@ Definition std_fn_sem (existing : list string) (f : fid) (inputs : json) : fres 
         end
     | _ => plain (SNon NPermFail)
     end
-  else if String.eqb f "res" || String.eqb f "resl" then
+  else if String.eqb f "res" || String.eqb f "resl" || String.eqb f "resd" then
     match inputs with
     | JMap kvs =>
         match lookup "name" kvs with
         | Some (JStr n) =>
-            if mem_str n existing
+            if mem_str n existing && String.eqb f "resd"
+            then {| f_out := SNon (NRetry RES_PATCH_DELAY); f_rid := Some (res_rid f n);
+                    f_calls := [("GET", n); ("PATCH", n)] |}
+            else if mem_str n existing
             then {| f_out := SVal (JMap [("got", inputs)]); f_rid := Some (res_rid f n);
                     f_calls := [("GET", n)] |}
             else {| f_out := SNon (NRetry RES_CREATE_DELAY); f_rid := Some (res_rid f n);
